@@ -52,7 +52,7 @@ REQUIRED = dict(
               'contract:chem.split-profiles-aligned', 'contract:chem.rejects-traces-above-one', 'contract:chem.shape',
               'contract:gas.one-per-layer', 'contract:gas.finite', 'contract:gas.within-controls',
               'rejects-above-one', 'accepts-valid', 'contract-fired'],
-    classes=['gas-added-after-initialisation', 'after-rejection:abundances-written-down', 'after-rejection:valid-sample-accepted', 'gas:ConstantGas', 'gas:TwoLayerGas', 'gas:TwoPointGas', 'gas:ArrayGas', 'gas:PowerGas',
+    classes=['gas-added-after-initialisation', 'grid:integer-decades', 'after-rejection:abundances-written-down', 'after-rejection:valid-sample-accepted', 'gas:ConstantGas', 'gas:TwoLayerGas', 'gas:TwoPointGas', 'gas:ArrayGas', 'gas:PowerGas',
              'fill:1', 'fill:2', 'fill:3', 'fill:4', 'ratio:float', 'ratio:list', 'mixture:dilute', 'mixture:heavy',
              'mixture:unity', 'mixture:exceed', 'avail:memory', 'avail:file', 'avail:none', 'fill-gas-active',
              'trace-inactive', 'nlayers:2', 'nlayers:100', 'via-forward-model', 'via-setter', 'twolayer:smoothed'])
@@ -88,6 +88,12 @@ def gen_nlayers(rng):
 
 
 def gen_grid(rng, n):
+    if n <= 12 and rng.random() < 0.12:
+        # exact decades written as integers (10**np.arange(...) is an int64 array), whole-number temperatures as integers
+        hi = int(rng.integers(n - 1, 13))
+        P = 10 ** np.arange(hi, hi - n, -1)
+        T = rng.integers(100, 3500, n) if rng.random() < 0.5 else rng.uniform(100, 3500, n)
+        return P, T, 'integer-decades'
     lpmax = rng.uniform(2.0, 8.0)
     kind = ['simple', 'simple', 'irregular', 'narrow'][rng.integers(0, 4)]
     dec = 10 ** rng.uniform(-2, 0.3) if kind == 'narrow' else rng.uniform(2.0, 12.0)
@@ -225,6 +231,7 @@ def wl_mixture(ctx, rng):
     from taurex.data.profiles.chemistry import TaurexChemistry
     n = gen_nlayers(rng)
     P, T, gk = gen_grid(rng, n)
+    ctx.observe('grid:' + gk)
     nf = int(rng.choice([1, 2, 2, 3, 4]))
     fills = [str(m) for m in rng.choice(FILL_POOL, nf, replace=False)]
     ratios = [float(10 ** rng.uniform(-6, 3)) if rng.random() < 0.3 else float(10 ** rng.uniform(-3, 0)) for _ in fills[1:]]
@@ -345,6 +352,7 @@ def wl_gas(ctx, rng):
     """Every built-in abundance profile on its own, over the layer counts."""
     n = gen_nlayers(rng)
     P, T, gk = gen_grid(rng, n)
+    ctx.observe('grid:' + gk)
     kind = GAS_KINDS[rng.integers(0, 5)] if rng.random() < 0.6 else 'TwoLayerGas'
     mol = str(rng.choice(TRACE_POOL))
     g = gen_gas(ctx, rng, mol, kind, P, float(10 ** rng.uniform(-6, 0)))
